@@ -22,6 +22,20 @@ CLAIMED = {
              "generators.",
         technique="TLA+ spec + TLC exhaustive/trace-driven generation, replay into the library, trace validation",
     ),
+    "C14": dict(
+        category="model_checking",
+        text="Document.tla's observations are functions of string BYTES only (no storage attribute exists in the "
+             "model). TLC generates every transition of a string-heavy bounded instance plus long spec-annotated "
+             "behaviours; each is replayed on the library once per string kind (literal/const char*, char*, char[N], "
+             "std::string, string_view, JsonString copied/linked, Arduino String, flash string) forced on every "
+             "string argument of every entry point (set/add/operator[]/remove/lookup/compare), and with random "
+             "mixtures; source buffers of copied kinds are overwritten after each call. Observation includes "
+             "serialization, as<integer>/as<double> of strings, is<T>, comparisons and lookups by every key kind.",
+        design_ref="DESIGN.md §4 C14",
+        note="String alphabet is a fixed table (empty, NUL inside, >=0x80, numeric-looking, prefixes of one "
+             "another); zero-terminated kinds cannot carry NUL. Arduino/flash kinds are the repository's fakes.",
+        technique="TLA+ spec + TLC generation, replay per string-kind schedule",
+    ),
 }
 
 NOT_YET = {
